@@ -3,7 +3,7 @@ import collections
 
 from .base import Monitor, viol, common_stats, pos_diff, sample_of
 from ..e2e import run_case, TOL
-from ..gen import gen_program, gen_exact_case, exhaustive_case, exhaustive_total
+from ..gen import gen_program, gen_exact_case, exhaustive_case, exhaustive_total, gen_regions
 from ..harness import depth_in, border_eps, DEFAULT_AT
 
 ETOL = 1e-9
@@ -501,6 +501,8 @@ class C14(MotionMonitor):
             if case is not None:
                 case["exhaustive_of"] = 2 * exhaustive_total(maxlen, True)
                 return case
+        if rnd.random() < 0.06:
+            return self.gen_plugin_case(rnd)
         name, feats = self.pick_class(rnd)
         settings = self.settings_for(rnd, feats)
         table, params = at_table(rnd)
@@ -519,8 +521,52 @@ class C14(MotionMonitor):
             case["streaming"] = True
         return case
 
+    def check_case(self, case):
+        if not case.get("plugin"):
+            return MotionMonitor.check_case(self, case)
+        # plugin layer: same oracles, real ExcludeRegionPlugin, settings saved through the real settings object
+        from ..harness import Plugin, region_payload
+        from ..e2e import Engine
+        stats = collections.Counter()
+        sets = collections.defaultdict(set)
+        p = Plugin(case["settings"])
+        for r in case["regions"]:
+            p.api("addExcludeRegion", region_payload(r))
+        p.add_region = lambda r: p.api("addExcludeRegion", region_payload(r))
+        eng = Engine(case, driver=p)
+        eng.active = False
+        tr = eng.run()
+        common_stats(tr, stats, sets)
+        stats["class:" + str(case.get("cls"))] += 1
+        v = self.oracle(tr, stats, case)
+        if tr.exc is not None:
+            v.append(dict(kind="exception", idx=tr.exc[0], cmd=tr.exc[1], detail=tr.exc[2], mechanism=None))
+        return dict(violations=v, nontrivial=self.nontrivial(tr, case) and not v, stats=stats, sets=sets, sample=sample_of(case, tr))
+
+    def gen_plugin_case(self, rnd):
+        """One print during which a settings save swaps the actions of the configured @-commands (same commands and patterns)."""
+        table = [["Excl", r"^\s*a(\s|$)", "disable_exclusion"], ["Excl", r"^\s*b(\s|$)", "enable_exclusion"]]
+        flipped = [[table[0][0], table[0][1], "enable_exclusion"], [table[1][0], table[1][1], "disable_exclusion"]]
+        s1 = dict(g90e=False, at=table, clear=False, shrink=False, enter=None, exit=None)
+        s2 = dict(s1, at=flipped)
+        regs = gen_regions(rnd, rnd.choice([1, 2, 3]))
+        steps = [["event", "PrintStarted"]]
+        for k, st in enumerate((s1, s2, s1)[:rnd.choice([2, 3])]):
+            feats = mk(at=True, rel=rnd.random() < 0.3, p_inside=0.5, beds=False,
+                       at_params={"enable_exclusion": ["b" if st is s1 else "a"], "disable_exclusion": ["a" if st is s1 else "b"]})
+            _, g = gen_program(rnd, feats, st, nsteps=rnd.randint(8, 30), regions=regs)
+            prog = [x for x in g.steps if x[0] in ("g", "at")]
+            if k:
+                steps.append(["settings", dict(st)])
+                prog = [x for x in prog if not (x[0] == "g" and x[1].upper().startswith("G28"))]
+                prog = [["g", "G90"], ["g", "G21"]] + prog
+            steps += prog
+        return dict(cls="plugin-settings-flip", plugin=True, settings=s1, regions=regs, steps=steps)
+
     def oracle(self, tr, stats, case):
         v = oracle_c14(tr, stats)
+        if case.get("plugin"):
+            return v + oracle_c01(tr, stats)
         if not case.get("streaming"):
             # after re-enabling, the C01 monitors keep running; a disable closes an episode "with the same re-synchronisation
             # obligations as leaving a region", which includes the extruder coordinate and an owed recovery (C04/C05 oracles;
